@@ -40,6 +40,29 @@ type Tree struct {
 	flip      *flipInfo
 	wfc       *wfcpInfo
 	trap2     *trap2Info
+	cpinv     *cpInvInfo
+	rtg       *retargetInfo
+}
+
+// cpInvInfo: a checkpoint at height c above everything the client has; bad is
+// a single-rule-invalid child of the main-chain block at height h-1 < c-1
+// (badLeaf = bad or a valid child of it).
+type cpInvInfo struct {
+	c, h    int32
+	bad     *Node
+	badLeaf *Node
+}
+
+// retargetInfo: a chain with retargeting whose second period is much shorter
+// than timespan/4 and whose third is much longer than timespan*4, so that both
+// clamps of the difficulty adjustment bind at a difficulty above the minimum;
+// minBad / maxBad are the headers at those retarget heights computed WITHOUT
+// the clamp (valid proof of work for their own bits), each with a branch on
+// top that is longer than the main chain above it.
+type retargetInfo struct {
+	hMin, hMax         int32
+	minBad, minBadLeaf *Node
+	maxBad, maxBadLeaf *Node
 }
 
 // trap2Info: two checkpoints c1 < c2 <= c1+4 on the main chain; side leaves
@@ -201,6 +224,13 @@ func (t *Tree) mine(r *rand.Rand, parent *Node, dt int64, corrupt string, now in
 	bits := t.requiredBits(parent, tm)
 	ver := int32(4)
 	switch corrupt {
+	case "noclamp":
+		// the difficulty a retarget would give if the measured timespan
+		// of the period were not clamped to [timespan/4, timespan*4]
+		mn, mx := t.minTs, t.maxTs
+		t.minTs, t.maxTs = 1, 1<<40
+		bits = t.requiredBits(parent, tm)
+		t.minTs, t.maxTs = mn, mx
 	case "bits":
 		alt := []uint32{0x1d00ffff, 0x207ffffe, 0x1f7fffff, bits + 1}
 		bits = alt[r.Intn(len(alt))]
@@ -220,9 +250,11 @@ func (t *Tree) mine(r *rand.Rand, parent *Node, dt int64, corrupt string, now in
 		if corrupt == "pow" {
 			ok = !ok
 		}
-		if corrupt == "bits" || hard {
+		if hard {
 			// the difficulty mismatch is detected before the proof of
 			// work is looked at; do not grind against a hard target
+			// (a wrong but easy target gets a proper proof of work, so
+			// that only the difficulty rule speaks against the header)
 			ok = true
 		}
 		if ok {
